@@ -274,6 +274,13 @@ def real_timer_cases(rep, theorem, which="timers"):
                          {"case": "(real-timer %s)" % cid, "impl": obs, "spec": "ok", "theorem": theorem, "failing_input_found": True,
                           "replay": "harness_rt/target/release/rxverif-harness-rt races"}, {})
             continue
+        if cid.startswith("order-"):
+            # an item arriving while the window task hands the trailing item to a slow subscriber on a pool thread
+            if obs != "ok":
+                rep.fail("throttle_time on a thread pool, an item arriving while the trailing item is being delivered: " + obs,
+                         {"case": "(real-timer %s)" % cid, "impl": obs, "spec": "ok", "theorem": theorem, "failing_input_found": True,
+                          "replay": "harness_rt/target/release/rxverif-harness-rt order"}, {})
+            continue
         small = any(cid.endswith(x) for x in ("-0ms", "-30ms", "-1500us", "-120ms"))     # every other delay is far beyond the window
         want = "ran" if small else "not-run"
         if obs != want:
